@@ -55,6 +55,11 @@ CLAIMED = {
   ref="DESIGN.md §6 C18",
   note="Trusted: Coq kernel; hand-written model of Header::from_raw / fix_based_on_file_len tied by differential execution; layouts through the C02 model; tables regenerated from /repo. The defect theorems carry explicit hypotheses (the defective header's own layout must not already match the length; array_size not 0 for the mip repairs).",
   tech="Coq proof (case analysis over the ordered repair attempts; find/filter lemmas) + differential execution on defect-injected headers"),
+ "C19": dict(
+  text="Coq theorems over the implementation's regenerated tables: for every header from which a format is detected (all valid DXGI codes x alpha modes incl. the premultiplied special cases, every FourCC, every mask pixel format; all other fields symbolic) the pixel layout derived from the header equals the pixel layout of the detected format, so layouts computed with or without a decoder coincide; every implemented format's pixel layout is within the bounds the layout/script theorems assume; size multiples are advertised exactly for the bi-planar formats and equal their sub-sampling; advertised bits per pixel are exact for fixed-size pixels and an upper bound per whole block otherwise. Observed behaviour is tied to the tables by differential execution: header detection sweep here, bytes consumed by decoding in C06, sizes accepted by encoding in C10. The dithering clauses are checked by an implementation-only oracle over all encodable formats.",
+  ref="DESIGN.md §6 C19",
+  note="Partial: the dithering clauses (acts only where advertised and requested; colour-only leaves stored alpha, alpha-only leaves stored colour) are decided by an oracle on the real encoder outputs, not by a theorem - the quantisers are f32 code outside the model; the internal Flags bit values (DITHER_ALPHA = 0x16) are not observable through the public API and are not modelled. Trusted: Coq kernel; tables regenerated from /repo through the public API and a validated source scan.",
+  tech="Coq proof (symbolic case analysis + finite table theorems by vm_compute on regenerated tables) + differential execution + dithering oracle"),
 }
 WIP = "check not built yet (work in progress, see DESIGN.md §10 staging); proof applies and is planned"
 
